@@ -143,6 +143,26 @@ void grids_case(size_t n1, size_t n2, std::pair<size_t, size_t> wa, std::pair<si
     after("spline-operator-bilinear-form");
     unchanged("spline-operator-bilinear-form/a2", a2, sa2, g);
   }
+  // objects with a history: r took part in operations on G, then is assigned (move / copy / lower order) a spline living on H;
+  // every later two-spline operation with a spline on G must be refused exactly when the grids differ
+  if constexpr (ob <= oa) {
+    for (int how = 0; how < 3; how++) {
+      Spline<Real, oa> r(a);
+      r += a2;
+      (void)(r == a);
+      (void)ScalarProduct{}(r, a2);
+      if (how == 0) { if constexpr (oa == ob) r = b * k1; else continue; }    // move assignment from a temporary
+      if (how == 1) { if constexpr (oa == ob) { auto tmp = b; r = tmp; } else continue; }  // copy assignment
+      if (how == 2) { if constexpr (ob < oa) r = b; else continue; }          // lower-order assignment
+      std::string hk = "history" + std::to_string(how) + "/";
+      { Spline<Real, oa> q(G); entry(hk + "add", differ, true, [&] { q = r + a2; }, [&] {}); }
+      { Spline<Real, oa + oa> q(G); entry(hk + "mul", differ, true, [&] { q = a2 * r; }, [&] {}); }
+      { Real q(0); entry(hk + "scalar-product", differ, true, [&] { q = ScalarProduct{}(r, a2); }, [&] {}); }
+      { auto t = r; entry(hk + "iadd", differ, true, [&] { t += a2; }, [&] {}); }
+      { auto t = a2; entry(hk + "iadd-reversed", differ, true, [&] { t += r; }, [&] {}); }
+      { Spline<Real, oa> q(G); entry(hk + "lincomb", differ, true, [&] { q = bspline::linearCombination(std::vector<Real>{k0, k1}, std::vector<Spline<Real, oa>>{a2, r}); }, [&] {}); }
+    }
+  }
   // a generator refuses a supplied grid that does not match its knots (simple knots = the points of G, one end knot doubled)
   {
     std::vector<Real> knots = g;
